@@ -121,6 +121,7 @@ pub fn run_call(re: &Regex, call: &Value) -> Value {
         None => return json!({"k":"badjob"}),
     };
     let len = s.chars().count();
+    regexml::verif_take_cutoffs();
     let r = match op {
         "is_match" => guarded(|| json!({"k":"ok","v": re.is_match(&s)})),
         "replace" => {
@@ -146,10 +147,15 @@ pub fn run_call(re: &Regex, call: &Value) -> Value {
         }),
         _ => Ok(json!({"k":"badjob"})),
     };
-    match r {
+    let mut v = match r {
         Ok(v) => v,
         Err(p) => p,
+    };
+    let cut = regexml::verif_take_cutoffs();
+    if cut != 0 {
+        v["cut"] = json!(cut);
     }
+    v
 }
 
 pub fn run_job(job: &Value) -> Value {
@@ -162,7 +168,10 @@ pub fn run_job(job: &Value) -> Value {
     };
     let xpath = job["x"].as_bool().unwrap_or(true);
     let unopt = job["unopt"].as_bool().unwrap_or(false);
-    match compile(&pat, &flags, xpath, unopt) {
+    regexml::verif_take_cutoffs();
+    let compiled = compile(&pat, &flags, xpath, unopt);
+    let compile_cut = regexml::verif_take_cutoffs();
+    match compiled {
         Err(e) => json!({"id":id,"compile":e,"res":[]}),
         Ok(re) => {
             let mut res = Vec::new();
@@ -172,6 +181,9 @@ pub fn run_job(job: &Value) -> Value {
                 }
             }
             let mut out = json!({"id":id,"compile":{"k":"ok"},"res":res});
+            if compile_cut != 0 {
+                out["compile"]["cut"] = json!(compile_cut);
+            }
             if job["facts"].as_bool().unwrap_or(false) {
                 let f = guarded(|| re.verif_facts());
                 out["facts"] = match f {
